@@ -145,14 +145,18 @@ Proof. exact never_skip_with_empty. Qed.
        exists enc p, s_enc st c = Some (enc, p) /\ m_cols u = enc /\ …
 
    It is FALSE for the faithful model of the code: C14_faithful_refuted below (known finding F17,
-   class stale-cached-metadata-without-ext).  Proved instead: for ALL histories (any number of
-   nodes with or without the extension, any events, any calls, any interleaving of sends, node
-   answers and receipts), every call OUTSIDE the class — [KnownClass ext uc] = the connection has
-   no metadata-id extension and the call asks for cached result metadata — that returns rows
-   returns them decoded with the columns the answering node encoded them with, and returns exactly
-   the payload that node sent.  Premises: the metadata id determines the columns, ids are not empty,
-   distinct statements have distinct ids and texts, the initial metadata of each statement is what
-   some node announced. *)
+   class stale-cached-metadata-without-ext).  What is proved:
+   * C14_faithful: for ALL histories (nodes with or without the extension, events, calls,
+     interleavings), every call outside the QUADRANT "no extension on the connection and cached
+     result metadata requested" that returns rows returns them decoded with the columns the
+     answering node encoded them with, and with exactly that node's payload;
+   * C14_announced_in_quadrant: inside the quadrant (no connection has the extension) nothing is
+     ever stored — rows that come without metadata are decoded with the columns announced at
+     preparation — and for every call OUTSIDE THE CLASS [KnownClass] (= some re-preparation
+     announced columns, and other ones than the call decoded with) every re-preparation announced
+     exactly the columns the rows were decoded with: "the metadata most recently announced".
+   Without the extension the server cannot announce an ALTER that evicts nothing; there the decoded
+   columns can lag behind the node's, which the property text does not forbid. *)
 Theorem C14_faithful : forall (D : schema) (ST : nat -> stmt) (ns : nat) (init : nat -> meta),
   (forall s v v', mid_of D s v = mid_of D s v' -> cols_of D s v = cols_of D s v') ->
   (forall s v, mid_of D s v <> []) ->
@@ -163,32 +167,57 @@ Theorem C14_faithful : forall (D : schema) (ST : nat -> stmt) (ns : nat) (init :
   srun D ST ns (sinit init nodes) ls = Some st ->
   let k := g_calls (s_g st) c in
   k_x k = Some a -> k_st k = CS_done (O_rows u pg nr cl) ->
-  ~ KnownClass (k_ext k) (xa_use_cached a) ->
+  ~ Quadrant (k_ext k) (xa_use_cached a) ->
   exists enc p, s_enc st c = Some (enc, p) /\ m_cols u = enc /\
                 pg = p_paging p /\ nr = p_nrows p /\ cl = p_cells p.
-Proof. exact faithful_outside_class. Qed.
+Proof. exact faithful_outside_quadrant. Qed.
 
-(* the class is decidable: the extracted [known_classb] computes it *)
-Theorem C14_known_class_dec : forall ext uc, known_classb ext uc = true <-> KnownClass ext uc.
-Proof. exact known_classb_spec. Qed.
+(* any server, any interleaving; [noext_label]: every call is made on a connection without the
+   extension and, accordingly, no PREPARED carries a result metadata id *)
+Theorem C14_announced_in_quadrant : forall ST init ls st c a u pg nr cl,
+  (forall s, m_id (init s) = None) -> Forall noext_label ls ->
+  grun ST (ginit init) ls = Some st ->
+  let k := g_calls st c in
+  let s := xa_stmt a in
+  k_x k = Some a -> xa_use_cached a = true -> k_st k = CS_done (O_rows u pg nr cl) ->
+  (forall s', g_cells st s' = init s') /\
+  (exists b rest, k_rcvd k = RRows b :: rest /\
+     match rb_meta b with
+     | RM_full nid cols => u = meta_of_cols nid cols
+     | RM_none _ => m_cols u = m_cols (init s) \/ u = mock_empty
+     end) /\
+  (~ KnownClass ST st c (m_cols u) ->
+   forall c' id pm, In (RPrepared id pm) (k_rcvd (g_calls st c')) -> id = s_id (ST s) -> m_cols pm <> [] ->
+                    m_cols pm = m_cols u).
+Proof. exact announced_in_quadrant. Qed.
 
-(* the specification system is an instance of the generic one: C14_transparent … apply to it *)
-Theorem C14_spec_is_generic : forall (D : schema) (ST : nat -> stmt) (ns : nat) (init : nat -> meta),
-  (forall s v v', mid_of D s v = mid_of D s v' -> cols_of D s v = cols_of D s v') ->
-  (forall s v, mid_of D s v <> []) ->
-  (forall s s', s_id (ST s) = s_id (ST s') -> s = s') ->
-  (forall s s', s_text (ST s) = s_text (ST s') -> s = s') ->
-  (forall s, meta_ok D s (init s)) ->
-  forall nodes ls st,
-  srun D ST ns (sinit init nodes) ls = Some st -> greach ST init (s_g st).
-Proof. exact srun_greach. Qed.
+(* the class the driver computes is the class *)
+Theorem C14_known_classb_sound : forall ST st n c cols,
+  known_classb ST st n c cols = true -> KnownClass ST st c cols.
+Proof. exact known_classb_sound. Qed.
+
+Theorem C14_quadrant_dec : forall ext uc, quadrantb ext uc = true <-> Quadrant ext uc.
+Proof. exact quadrantb_spec. Qed.
+
+(* the complete log of every call (requests sent, responses received, program counter) is one of
+   the logs [exec_log] / [batch_log] describe: for a batch, in order: BATCH, then per UNPREPARED
+   answer whose id is found in the batch a PREPARE of that statement and, after a PREPARED with its
+   id, the identical BATCH again; the outcome is [batch_final] of the last answer *)
+Theorem C14_call_log : forall ST init st,
+  greach ST init st -> forall c, call_ok ST (g_calls st c).
+Proof. exact reach_call_ok. Qed.
+
+(* the interleaving search used for the tie's concurrent callers only builds runs *)
+Theorem C14_par_sound : forall ST fuel st pre post st',
+  g_par fuel ST st pre post = Some st' -> exists ls, grun ST st ls = Some st'.
+Proof. exact g_par_sound. Qed.
 
 (* Transparency end to end: from ANY reachable state of the specification system in which call c
    has its first EXECUTE in flight to a node that has evicted the statement (and still prepares its
    text under the id the client holds, and the statement returns columns), the uninterrupted
    continuation serve/receive (UNPREPARED), serve/receive (PREPARED), reload, serve/receive ends with
    the caller holding the rows the node put into its last answer — decoded with the node's columns
-   for every call outside the known-finding class. *)
+   for every call outside the quadrant. *)
 Theorem C14_evicted_recovers : forall (D : schema) (ST : nat -> stmt) (ns : nat) (init : nat -> meta),
   (forall s v v', mid_of D s v = mid_of D s v' -> cols_of D s v = cols_of D s v') ->
   (forall s v, mid_of D s v <> []) ->
@@ -208,8 +237,8 @@ Theorem C14_evicted_recovers : forall (D : schema) (ST : nat -> stmt) (ns : nat)
   exists st' u,
     srun D ST ns st [SL_serve c p0; SL_recv c; SL_serve c p1; SL_recv c; SL_tick c; SL_serve c p; SL_recv c] = Some st' /\
     k_st (g_calls (s_g st') c) = CS_done (O_rows u (p_paging p) (p_nrows p) (p_cells p)) /\
-    (~ KnownClass (k_ext k) (xa_use_cached a) -> m_cols u = cols_of D s (n_ver nd s)).
-Proof. exact recovers_outside_class. Qed.
+    (~ Quadrant (k_ext k) (xa_use_cached a) -> m_cols u = cols_of D s (n_ver nd s)).
+Proof. exact recovers_outside_quadrant. Qed.
 
 (* The acceptors the correspondence check runs on the recorded traces build a run of the system,
    label by label: an accepted trace is a reachable state in which, for the i-th recorded
@@ -382,7 +411,7 @@ Theorem C14_faithful_refuted :
     srun exD exST 1 (sinit (exInit false) (exNodes false)) ls = Some st /\
     k_x (g_calls (s_g st) c) = Some a /\
     k_st (g_calls (s_g st) c) = CS_done (O_rows u pg nr cl) /\
-    KnownClass (k_ext (g_calls (s_g st) c)) (xa_use_cached a) /\
+    KnownClass exST (s_g st) c (m_cols u) /\
     s_enc st c = Some (enc, p) /\ m_cols u <> enc.
 Proof.
   exists exHistStale.
@@ -390,13 +419,48 @@ Proof.
     [|vm_compute in E; discriminate].
   assert (H : exists a u pg nr cl enc p,
             k_x (g_calls (s_g st) 0) = Some a /\ k_st (g_calls (s_g st) 0) = CS_done (O_rows u pg nr cl) /\
-            KnownClass (k_ext (g_calls (s_g st) 0)) (xa_use_cached a) /\
+            known_classb exST (s_g st) 1 0 (m_cols u) = true /\
             s_enc st 0 = Some (enc, p) /\ m_cols u <> enc).
   { vm_compute in E. inversion E; subst st; clear E. vm_compute.
     do 7 eexists. repeat split; try reflexivity. intros H; discriminate H. }
-  destruct H as [a [u [pg [nr [cl [enc [p H]]]]]]].
-  exists st, 0%nat, a, u, pg, nr, cl, enc, p. tauto.
+  destruct H as [a [u [pg [nr [cl [enc [p [H1 [H2 [H3 [H4 H5]]]]]]]]]]].
+  exists st, 0%nat, a, u, pg, nr, cl, enc, p. repeat split; try assumption.
+  eapply known_classb_sound; eassumption.
 Qed.
+
+(* "… which is also what the next execution presents", full strength for concurrent callers:
+     every EXECUTE presents the id of the metadata most recently announced to the client
+   FALSE for the faithful model: [handle_result_metadata_new_id] compares the metadata of the
+   response — which for a NO_METADATA answer is the caller's own cached snapshot — with the cell
+   and stores it when the ids differ.  Two callers, extension on: call 0 is served while the node
+   still has the old schema (rows without metadata), the schema changes, call 1 is answered with
+   METADATA_CHANGED + new id and stores it, then call 0's answer arrives: its snapshot (old id) is
+   written back over the newer announcement and call 2 presents the OLD id (costs one more
+   METADATA_CHANGED round trip; decoding stays right by C14_faithful). *)
+Definition exHistRace : list slabel :=
+  [SL_exec 0 0 (exArgs false); SL_serve 0 payA; SL_event 0 (EV_schema 0 1);
+   SL_exec 1 0 (exArgs false); SL_serve 1 payB; SL_recv 1; SL_recv 0; SL_exec 2 0 (exArgs false)].
+
+Theorem C14_next_id_concurrent_refuted :
+  match srun exD exST 1 (sinit (exInit true) (exNodes true)) exHistRace with
+  | Some st =>
+      let g := s_g st in
+      match k_rcvd (g_calls g 0), k_rcvd (g_calls g 1), k_sent (g_calls g 2), g_ann g 0 with
+      | [RRows b0], [RRows b1], [(Q_execute f2, _)], [back; newer] =>
+          (* the only metadata announced after preparation is the new id [7;2] … *)
+          match rb_meta b0, rb_meta b1 with
+          | RM_none _, RM_full (Some i) _ => bytes_eqb i [7; 2]
+          | _, _ => false
+          end &&
+          obytes_eqb (m_id newer) (Some [7; 2]) &&
+          (* … but the old one was stored after it, is in the cell, and is what call 2 presents *)
+          obytes_eqb (m_id back) (Some [7; 1]) && obytes_eqb (m_id (g_cells g 0)) (Some [7; 1]) &&
+          obytes_eqb (f_rmid f2) (Some [7; 1])
+      | _, _, _, _ => false
+      end
+  | None => false
+  end = true.
+Proof. vm_compute. reflexivity. Qed.
 
 (* the same history, spelled out *)
 Example C14_ex_stale_without_ext :
@@ -443,6 +507,122 @@ Example C14_ex_accept :
   end = true.
 Proof. vm_compute. reflexivity. Qed.
 
+(* ---------------------------------------------------------------------------------------- *)
+(* anchors: the predicates the driver and the class rely on, on accepting AND rejecting inputs *)
+(* ---------------------------------------------------------------------------------------- *)
+Example C14_ex_quadrant :
+  quadrantb false true = true /\ quadrantb true true = false /\ quadrantb false false = false /\
+  quadrantb true false = false /\ ~ Quadrant true true /\ ~ Quadrant false false.
+Proof. repeat split; try reflexivity; intros [A B]; discriminate. Qed.
+
+(* the class needs the quadrant AND a re-preparation that announced OTHER columns *)
+Example C14_ex_known_class :
+  match srun exD exST 1 (sinit (exInit false) (exNodes false)) exHistStale,
+        srun exD exST 1 (sinit (exInit true) (exNodes true)) exHist1,
+        srun exD exST 1 (sinit (exInit false) (exNodes false))
+          [SL_event 0 (EV_evicted 0); SL_exec 0 0 (exArgs true); SL_serve 0 payA; SL_recv 0;
+           SL_serve 0 payA; SL_recv 0; SL_tick 0; SL_serve 0 payA; SL_recv 0] with
+  | Some stale, Some ext, Some same =>
+      known_classb exST (s_g stale) 1 0 cA &&            (* decoded with cA, re-preparation announced cB *)
+      negb (known_classb exST (s_g stale) 1 0 cB) &&      (* had it decoded with cB: not in the class *)
+      negb (known_classb exST (s_g stale) 0 0 cA) &&      (* no call looked at: nothing found *)
+      negb (known_classb exST (s_g ext) 2 1 cA) &&        (* extension on: never *)
+      negb (known_classb exST (s_g same) 1 0 cA)          (* eviction without ALTER: same columns announced *)
+  | _, _, _ => false
+  end = true.
+Proof. vm_compute. reflexivity. Qed.
+
+Definition exF1 : exec_frame := mk_exec_frame (exST 0) true (exArgs false) (exInit true 0).
+Definition exRowsA : resp := RRows (mkRows (RM_none 2) None 1 (p_cells payA)).
+Definition exObsA : obs_out := OB_rows cA None (Some [[Some [0;0;0;1]; Some [104; 105]]]) true.
+Definition exX (q : request) (r : resp) (enc : list col) : xchg := mkXchg q r enc payA.
+
+(* the property predicate on one operation: accepts the normal shapes, rejects an UNPREPARED that is
+   not followed by a re-preparation, a resend with another value / timestamp, a resend after the id
+   changed, rows decoded with other columns than the node encoded / sent *)
+Example C14_ex_prop_exec :
+  let u := RUnprepared (s_id (exST 0)) in
+  let p := RPrepared (s_id (exST 0)) (meta_of_cols (Some [7;1]) cA) in
+  let p' := RPrepared [9] (meta_of_cols (Some [7;1]) cA) in
+  let prep := Q_prepare (s_text (exST 0)) in
+  let f2bad := mkExec (f_id exF1) (f_rmid exF1) [1] (f_cons exF1) (f_serial exF1) (f_page_size exF1)
+                      (f_paging exF1) (f_ts exF1) (f_skip exF1) in
+  let f2ts := mkExec (f_id exF1) (f_rmid exF1) (f_values exF1) (f_cons exF1) (f_serial exF1) (f_page_size exF1)
+                     (f_paging exF1) None (f_skip exF1) in
+  prop_exec_ok exST true (exArgs false) [exX (Q_execute exF1) exRowsA cA] exObsA = true /\
+  prop_exec_ok exST true (exArgs false)
+    [exX (Q_execute exF1) u []; exX prep p []; exX (Q_execute exF1) exRowsA cA] exObsA = true /\
+  prop_exec_ok exST true (exArgs false) [exX (Q_execute exF1) u []; exX prep p' []] (OB_err E_IdChanged) = true /\
+  prop_exec_ok exST true (exArgs false) [exX (Q_execute exF1) u []] (OB_err E_Unprepared) = false /\
+  prop_exec_ok exST true (exArgs false)
+    [exX (Q_execute exF1) u []; exX prep p []; exX (Q_execute f2bad) exRowsA cA] exObsA = false /\
+  prop_exec_ok exST true (exArgs false)
+    [exX (Q_execute exF1) u []; exX prep p []; exX (Q_execute f2ts) exRowsA cA] exObsA = false /\
+  prop_exec_ok exST true (exArgs false)
+    [exX (Q_execute exF1) u []; exX prep p' []; exX (Q_execute exF1) exRowsA cA] exObsA = false /\
+  prop_exec_ok exST true (exArgs false) [exX (Q_execute exF1) u []; exX prep p' []] (OB_err E_Unprepared) = false /\
+  prop_exec_ok exST true (exArgs false) [exX (Q_execute exF1) exRowsA cB] exObsA = false /\
+  prop_exec_ok exST true (exArgs false)
+    [exX (Q_execute exF1) (RRows (mkRows (RM_full None cB) None 1 (p_cells payA))) cB] exObsA = false.
+Proof. vm_compute. repeat split; reflexivity. Qed.
+
+(* what an EXECUTE has to present: the announced id and skip with the extension, nothing without *)
+Example C14_ex_present :
+  let an := mkAnn (fun _ => cA) (fun _ => Some [7;1]) (fun _ => false) in
+  let an0 := mkAnn (fun _ => []) (fun _ => Some [7;1]) (fun _ => false) in
+  let fr rm sk := mkExec (f_id exF1) rm (f_values exF1) (f_cons exF1) (f_serial exF1) (f_page_size exF1)
+                         (f_paging exF1) (f_ts exF1) sk in
+  present_ok an true (exArgs false) (fr (Some [7;1]) true) = true /\
+  present_ok an true (exArgs false) (fr (Some [7;2]) true) = false /\
+  present_ok an true (exArgs false) (fr (Some [7;1]) false) = false /\
+  present_ok an true (exArgs false) (fr (Some []) true) = false /\
+  present_ok an0 true (exArgs false) (fr (Some []) false) = true /\
+  present_ok an0 true (exArgs false) (fr (Some [7;1]) false) = false /\
+  present_ok an false (exArgs true) (fr None true) = true /\
+  present_ok an false (exArgs false) (fr None false) = true /\
+  present_ok an false (exArgs false) (fr None true) = false /\
+  present_ok an false (exArgs true) (fr (Some [7;1]) true) = false.
+Proof. vm_compute. repeat split; reflexivity. Qed.
+
+(* the bookkeeping check on whole histories: the stale trace is reported and tagged in-class; the
+   same trace with the rows decoded with the announced columns is clean; with the extension a stale
+   decode is reported OUTSIDE the class; a wrong presented id is reported *)
+Example C14_ex_stale_check :
+  let an b := mkAnn (fun _ => cA) (fun _ => if b then Some [7;1] else None) (fun _ => false) in
+  let u := RUnprepared (s_id (exST 0)) in
+  let prep := Q_prepare (s_text (exST 0)) in
+  let fne := mk_exec_frame (exST 0) false (exArgs true) (exInit false 0) in
+  let pB := RPrepared (s_id (exST 0)) (meta_of_cols None cB) in
+  let rowsB := RRows (mkRows (RM_none 3) None 1 (p_cells payB)) in
+  let obs c := OB_rows c None None false in
+  let stale := [exX (Q_execute fne) u []; exX prep pB []; exX (Q_execute fne) rowsB cB] in
+  stale_check exST 1 true (an false) 0 [TO_exec 0 false (exArgs true) stale (obs cA)] = [(0%nat, Some true)] /\
+  stale_check exST 1 true (an false) 0 [TO_exec 0 false (exArgs true) stale (obs cB)] = [] /\
+  stale_check exST 1 true (an true) 0
+    [TO_exec 0 true (exArgs false) [exX (Q_execute exF1) rowsB cB] (obs cB)] = [(0%nat, Some false)] /\
+  stale_check exST 1 true (an true) 0
+    [TO_exec 0 true (exArgs false) [exX (Q_execute exF1) exRowsA cA] exObsA] = [] /\
+  stale_check exST 1 true (mkAnn (fun _ => cA) (fun _ => Some [7;2]) (fun _ => false)) 0
+    [TO_exec 0 true (exArgs false) [exX (Q_execute exF1) exRowsA cA] exObsA] = [(0%nat, None)].
+Proof. vm_compute. repeat split; reflexivity. Qed.
+
+(* the interleaving search finds the schedule of the race history and rejects a wrong outcome *)
+Example C14_ex_par :
+  let x0 := exX (Q_execute exF1) exRowsA cA in
+  let x1 := exX (Q_execute exF1) (RRows (mkRows (RM_full (Some [7;2]) cB) None 1 (p_cells payB))) cB in
+  let oB := OB_rows cB None (Some [[Some [0;0;0;2]; Some [104]; Some [0;0;0;0;0;0;0;3]]]) true in
+  let p0 := mkP 0 true (exArgs false) false [x0] exObsA in
+  let p1 o := mkP 1 true (exArgs false) false [x1] o in
+  match g_par 40 exST (ginit (exInit true)) [] [p0; p1 oB] with
+  | Some st => true
+  | None => false
+  end &&
+  match g_par 40 exST (ginit (exInit true)) [] [p0; p1 exObsA] with
+  | Some _ => false
+  | None => true
+  end = true.
+Proof. vm_compute. reflexivity. Qed.
+
 Print Assumptions C14_transparent.
 Print Assumptions C14_direct.
 Print Assumptions C14_id_changed.
@@ -458,5 +638,10 @@ Print Assumptions C14_spec_is_generic.
 Print Assumptions C14_accept_sound.
 Print Assumptions C14_spec_accept_sound.
 Print Assumptions C14_evicted_recovers.
-Print Assumptions C14_known_class_dec.
 Print Assumptions C14_faithful_refuted.
+Print Assumptions C14_announced_in_quadrant.
+Print Assumptions C14_known_classb_sound.
+Print Assumptions C14_quadrant_dec.
+Print Assumptions C14_call_log.
+Print Assumptions C14_par_sound.
+Print Assumptions C14_next_id_concurrent_refuted.
